@@ -57,14 +57,20 @@ PROPS["C03"] = {
 }
 PROPS["C18"] = {
     "functions": _ADDS + _LOOKUP,
-    "clauses": lambda q, o: any(t in o["id"] for t in ("event", "announces", "one-event", "exc:unchanged", "canary", "G-ev", "I-ev0", "dispatch")),
+    "clauses": lambda q, o: any(t in o["id"] for t in ("event", "announces", "one-event", "exc:unchanged", "canary", "G-ev", "I-ev0", "dispatch",
+                                                            # what ties the announced types (= the container's types) to the keys really written:
+                                                            "inserted-", "only-free-keys-added", "only-keys-of-T-added", "I-conv", "store-loop-iterates",
+                                                            "requested-key-holds", "resources:keys", "resources:new-entries", "factories:keys",
+                                                            "factories:new-entries")),
     "trusted": CTX_TRUSTED, "assumptions": CTX_ASSUME, "undecided": ["delivery of the event to subscribers is C10"],
     "level_text": "Proof: the ghost event log of the context's own resource_added signal grows by exactly one event with the registered "
                   "types/name/description/is_factory on every successful add and first generation, by nothing on raising paths and hits, and "
                   "no other signal's log changes (frame).",
     "level_note": "Trusted: Signal.dispatch contract (records one event on its own signal; verified under C10), A-DESC, pyvc encoding.",
     "design_ref": "DESIGN.md section 5 (C18)",
-    "explanation": "event:* postconditions and announces-nothing / one-event-iff-generated local clauses",
+    "explanation": "event:* postconditions and announces-nothing / one-event-iff-generated local clauses; the announced types are the "
+                   "container's types (event clause) and the container is stored under exactly those keys (store-loop invariants inserted-prefix / "
+                   "only-free-keys-added, I-conv, resources:keys)",
 }
 PROPS["C02"] = {
     "functions": ["_context.Context.__init__", "_context.Context.get_resources"] + _ADDS + _LOOKUP,
@@ -102,7 +108,7 @@ LIFE_TRUSTED = CTX_TRUSTED + [
 PROPS["C01"] = {
     "functions": ["_context.Context._run_teardown_callbacks", "_context.Context.add_teardown_callback", "_context.Context.__aenter__",
                   "_context.Context.__aexit__", "_context.Context.add_resource", "_context.context_teardown.wrapper",
-                  "_context.context_teardown.wrapper.teardown_callback", "_context.Context.start_service_task"],
+                  "_context.context_teardown.wrapper.teardown_callback", "_context.context_teardown", "_context.Context.start_service_task"],
     "trusted": LIFE_TRUSTED + ["async generator protocol: asend(None) runs the generator to its first yield or raises StopAsyncIteration; aclose() finishes it"],
     "assumptions": CTX_ASSUME + ["all four registration routes end in Context.add_teardown_callback: directly, add_resource(teardown_callback=), "
                   "@context_teardown (wrapper verified: registers exactly once, after the generator reached its yield, on the context current at call "
